@@ -13,6 +13,9 @@ pub enum Dev {
     CommitReblind(usize, S),
     CommitOtherValue(usize, S),
     CommitRandom(usize, u64),
+    /// commitment i shifted by a point of small order (curve25519 only): a
+    /// different group element with the same prime-order component
+    CommitTorsion(usize, u8),
     /// verifier has one more commitment than the prover
     CommitExtra(u64),
     /// verifier has one commitment fewer than the prover
@@ -48,6 +51,7 @@ impl Dev {
             Dev::CommitReblind(..) => "F7-commit-reblinded",
             Dev::CommitOtherValue(..) => "F7-commit-other-value",
             Dev::CommitRandom(..) => "F7-commit-replaced",
+            Dev::CommitTorsion(..) => "F7-commit-plus-small-order-point",
             Dev::CommitExtra(_) => "F7-commit-extra",
             Dev::CommitMissing => "F7-commit-missing",
             Dev::CommitExtraDuplicate(_) => "F7-commit-extra-duplicate",
@@ -151,6 +155,41 @@ fn apply_dev<G: AffineRepr>(
             Some((base.clone(), vst, Box::new(move |c: &[G]| {
                 let mut v = c.to_vec();
                 v[i] = G::rand(&mut rng_from_u64(seed, "dev-commit"));
+                v
+            }), true))
+        }
+        Dev::CommitTorsion(i, k) => {
+            if *i >= m || base.curve != Curve::Ed {
+                return None;
+            }
+            let (i, k) = (*i, *k);
+            // T = r * R for a random curve point R that is not cofactor-cleared
+            let t: Option<G> = {
+                use ark_ff::PrimeField;
+                let mut rng = rng_from_u64(77, "torsion");
+                let mut found = None;
+                for _ in 0..200 {
+                    let mut b = vec![0u8; crate::codec::point_size::<G>()];
+                    rand_core::RngCore::fill_bytes(&mut rng, &mut b);
+                    if let Ok(p) = <G as ark_serialize::CanonicalDeserialize>::deserialize_compressed_unchecked(&b[..]) {
+                        let t = p.mul_bigint(<G::ScalarField as PrimeField>::MODULUS);
+                        let t4 = t + t + t + t;
+                        if !ark_std::Zero::is_zero(&t4) {
+                            found = Some(t.into_affine());
+                            break;
+                        }
+                    }
+                }
+                found
+            };
+            let t = t?;
+            Some((base.clone(), vst, Box::new(move |c: &[G]| {
+                let mut v = c.to_vec();
+                let mut acc = v[i].into_group();
+                for _ in 0..(1 + (k % 7)) {
+                    acc += t.into_group();
+                }
+                v[i] = acc.into_affine();
                 v
             }), true))
         }
@@ -482,7 +521,13 @@ pub fn gen_dev(rng: &mut Rng, base: &SessionCase, kn: &gen::Knobs) -> Dev {
             0 => Dev::Twin,
             1 if m > 0 => Dev::CommitReblind(below(rng, m), gen_scalar_nonzero::<ark_secq256k1::Fr>(rng)),
             2 if m > 0 => Dev::CommitOtherValue(below(rng, m), gen_scalar_nonzero::<ark_secq256k1::Fr>(rng)),
-            3 if m > 0 => Dev::CommitRandom(below(rng, m), rng.next_u64()),
+            3 if m > 0 => {
+                if st.curve == Curve::Ed && chance(rng, 1, 2) {
+                    Dev::CommitTorsion(below(rng, m), (rng.next_u32() % 7) as u8)
+                } else {
+                    Dev::CommitRandom(below(rng, m), rng.next_u64())
+                }
+            }
             4 => Dev::CommitExtra(if chance(rng, 1, 3) { 0 } else { rng.next_u64() | 1 }),
             5 => match below(rng, 3) {
                 0 if m > 0 => Dev::CommitExtraDuplicate(below(rng, m)),
